@@ -283,8 +283,8 @@ pub fn wire(o: &Opts) -> Res<()> {
         let mut dec = |variant: &str, data: &[u8], must_accept: bool, out: &mut TraceOut| {
             let r = Message::decode(data);
             match r {
-                Ok(d) => out.put(json!({"ev":"Dec","variant":variant,"must":if must_accept {"accept"} else {"reject"},"ok":true,"m":abs(&d),"expect":a,"len":data.len()})),
-                Err(_) => out.put(json!({"ev":"Dec","variant":variant,"must":if must_accept {"accept"} else {"reject"},"ok":false,"m":a,"expect":a,"len":data.len()})),
+                Ok(d) => out.put(json!({"ev":"Dec","variant":variant,"must":if must_accept {"accept"} else {"reject"},"ok":true,"m":abs(&d),"expect":a,"len":data.len(),"bytes":bytes_json(data)})),
+                Err(_) => out.put(json!({"ev":"Dec","variant":variant,"must":if must_accept {"accept"} else {"reject"},"ok":false,"m":a,"expect":a,"len":data.len(),"bytes":bytes_json(data)})),
             }
         };
         dec("canonical", &bytes, true, &mut out);
@@ -370,8 +370,8 @@ pub fn wire_replay(o: &Opts) -> Res<()> {
             Ok(bytes) => {
                 out.put(json!({"ev":"Enc","m":a0,"bytes":bytes_json(&bytes),"ok":true}));
                 let mut dec = |variant: &str, data: &[u8], out: &mut TraceOut| match Message::decode(data) {
-                    Ok(d) => out.put(json!({"ev":"Dec","variant":variant,"must":"accept","ok":true,"m":abs(&d),"expect":a,"len":data.len()})),
-                    Err(_) => out.put(json!({"ev":"Dec","variant":variant,"must":"accept","ok":false,"m":a,"expect":a,"len":data.len()})),
+                    Ok(d) => out.put(json!({"ev":"Dec","variant":variant,"must":"accept","ok":true,"m":abs(&d),"expect":a,"len":data.len(),"bytes":bytes_json(data)})),
+                    Err(_) => out.put(json!({"ev":"Dec","variant":variant,"must":"accept","ok":false,"m":a,"expect":a,"len":data.len(),"bytes":bytes_json(data)})),
                 };
                 dec("canonical", &bytes, &mut out);
                 if let Some((tree, _)) = benc::parse(&bytes) {
